@@ -117,8 +117,8 @@ PROPS = {
     "C18": {
         "filters": tiers("c18", extra_quick=["c18::containers::"]),
         "bounds": {
-            "quick": "every i64 and every u64 source into each of i8,i16,i32,i64,isize,u8,u16,u32,u64,usize; Option<int> (4 pairs); null -> None; bool and f64 identity; integer target from null/bool source is an error; Vec<i64> / Vec<u8> / (i64,u64) tuple targets from two-element integer lists (all payloads; wrong tuple length is an error); String target from strings of 0..=2 ASCII bytes; String from integer is an error",
-            "thorough": "as quick plus 11 more Option<int> pairs, integer targets from float and string sources, bool from integer",
+            "quick": "every i64 and every u64 source into each of i8,i16,i32,i64,isize,u8,u16,u32,u64,usize; Option<int> (4 pairs); null -> None; bool and f64 identity; integer target from null/bool source is an error; Vec<i64> / Vec<u8> / (i64,u64) tuple targets from two-element integer lists (all payloads; wrong tuple length is an error); String target from strings of 0..=2 ASCII bytes; String from integer is an error; i64 / u8 targets from any finite float source (an error, or the exact integer: never rounded or saturated)",
+            "thorough": "as quick plus 11 more Option<int> pairs, the other integer targets from float sources, integer targets from string sources, bool from integer",
         },
         "outside": "f32 (lossy by design); struct / map targets, i.e. whole rows through try_into_struct (a one-entry BTreeMap row runs out of memory after 215-350 s); sequences longer than 2; strings longer than 2 bytes as decode targets",
         "assumptions": COMMON + VALS + ["serde's own primitive Deserialize impls are part of the code under test, not stubbed"],
